@@ -121,6 +121,44 @@ def transport():
     return out
 
 
+def stock_transport():
+    """Initial-stock transport (concrete side-condition): stated initial stocks are the k=0 values the solver starts from, and the
+    first solved period obeys the book recursion evaluated from exactly those stocks (zero stocks included)."""
+    out = []
+    G, th, a1, a2 = 20.0, 0.2, 0.6, 0.4
+    for name in ('SIM', 'SIMEX1', 'PC'):
+        for V0, B0, YD0 in ((80.0, 50.0, 60.0), (80.0, 0.0, 60.0), (0.0, 0.0, 0.0), (40.0, 40.0, 16.0)):
+            ctx, gov = build(name)
+            m = ctx.model
+            m.AddInitialCondition('HH', 'F', V0)
+            m.AddInitialCondition('HH', 'AfterTax', YD0)
+            if name == 'PC':
+                m.AddInitialCondition('HH', 'DEM_DEP', B0)
+            m.MaxTime = 2
+            try:
+                m.main()
+            except Exception as e:
+                out.append((name, (V0, B0, YD0), False, 'main raises %r' % (e,)))
+                continue
+            ts = m.EquationSolver.TimeSeries
+            ok = abs(ts['HH__F'][0] - V0) < 1e-12 and abs(ts['HH__AfterTax'][0] - YD0) < 1e-12
+            if name == 'PC':
+                ok = ok and abs(ts['HH__DEM_DEP'][0] - B0) < 1e-12
+            # book recursion for k=1 from the stated stocks
+            r0 = 0.025
+            I = r0 * B0 if name == 'PC' else 0.0
+            if name == 'SIMEX1':
+                C = a1 * YD0 + a2 * V0
+                Y = C + G
+            else:
+                Y = (G + a1 * (1 - th) * I + a2 * V0) / (1 - a1 * (1 - th))
+            got = ts['GOOD__SUP_GOOD'][1]
+            detail = 'k=0 stocks %r; Y(1) framework %.6f book %.6f' % ({v: ts[v][0] for v in ('HH__F', 'HH__AfterTax')}, got, Y)
+            ok = ok and abs(got - Y) < 1e-3
+            out.append((name, (V0, B0, YD0), ok, detail))
+    return out
+
+
 REPLAY = '''
 import sys
 from fractions import Fraction as F
@@ -165,7 +203,8 @@ def run(tier, seed):
     chk.bounds = {'models': ['SIM', 'SIMEX1', 'PC'], 'periods': 'one-period induction: arbitrary lagged stocks/income/rate -> all k>=1',
                   'numeric domain': 'alpha1, alpha2 in (0,1), theta in [0,1), lambda0..2, G_k, r_k, r_{k-1}, lagged stocks: all reals'}
     chk.assumptions = ['admissibility: 0<alpha1<1, 0<alpha2<1, 0<=theta<1; PC: wealth V != 0 (the book divides by it)',
-                       'parameters on the 4-decimal grid the constructors emit (%0.4f is pinned by the test-suite); transport checked concretely']
+                       'parameters on the 4-decimal grid the constructors emit (%0.4f is pinned by the test-suite); transport checked concretely',
+                       'initial stocks: the induction leaves lagged stocks free; that stated initial stocks (incl. zeros) become the k=0 state is a concrete side-check']
     chk.outside = ['numerical agreement of the iterated series (C02 + this give it jointly)', 'off-grid parameter values (documented rounding)']
     for st, rec in pmap(work, ['SIM', 'SIMEX1', 'PC']):
         if st != 'ok':
@@ -191,6 +230,12 @@ def run(tier, seed):
         if not ok:
             chk.violation('transport:' + name, 'parameters 0.6123/0.3789/0.2345 emitted as %s' % (got,),
                           'import sys\nfrom vf.props.c09 import transport\nr=[t for t in transport() if t[0]==%r][0]\nprint(r)\nsys.exit(0 if r[1] else 1)\n' % name)
+    for name, stocks, ok, detail in stock_transport():
+        chk.ob('unsat' if ok else 'sat', distinct=('stock-transport', name, stocks))
+        chk.count('stock_transport_checks')
+        if not ok:
+            chk.violation('stock-transport:%s:%r' % (name, stocks), '%s with stated initial stocks (V, B, YD) = %r: %s' % (name, stocks, detail),
+                          'import sys\nfrom vf.props.c09 import stock_transport\nr=[t for t in stock_transport() if t[0]==%r and t[1]==%r][0]\nprint(r)\nsys.exit(0 if r[2] else 1)\n' % (name, stocks))
     from vf.props import c09_iter
     c09_iter.run_into(chk, tier)
     chk.exhaustive = True
